@@ -522,6 +522,20 @@ fn run_mode(scenario: u32, choices: &[u8], hostile: bool) -> Outcome {
   };
   let participant_attributes = || governed_attrs.as_ref().map(|g| g.participant.clone()).unwrap_or_else(|| participant_attrs(rtps));
 
+  // A legitimate set-up (registration and key exchange of endpoints whose attributes come from the
+  // generated governance) that fails means that correctly protected traffic cannot flow at all:
+  // that is a violation of "keeps flowing", not a harness error.
+  macro_rules! setup {
+    ($r:expr, $what:expr) => {
+      match $r {
+        Ok(v) => v,
+        Err(e) => {
+          o.violate("c17.blocked", &format!("setup:{}", $what), format!("rtps={rtps:?} endpoints={:?}: {} failed for a legitimate, consistently configured pair of participants: {e:?}", eps.iter().map(|e| (e.name, e.sub, e.payload)).collect::<Vec<_>>(), $what));
+          return o;
+        }
+      }
+    };
+  }
   // ---------------------------------------------------------------- the two plugin sets
   let vp = rig::node_prefix(0);
   let lp = rig::node_prefix(PEER);
@@ -531,39 +545,39 @@ fn run_mode(scenario: u32, choices: &[u8], hostile: bool) -> Outcome {
     p.verif_set_handles(vp, 1, 1);
     p.verif_set_handles(lp, 2, 2);
   }
-  must(pv.register_local_participant(vp, None, participant_attributes()), "register_local_participant");
-  must(pl.register_local_participant(lp, None, participant_attributes()), "register_local_participant");
-  must(pv.register_matched_remote_participant(lp, pair_secret(1, 2)), "register_matched_remote_participant");
-  must(pl.register_matched_remote_participant(vp, pair_secret(1, 2)), "register_matched_remote_participant");
-  let t = must(pl.create_local_participant_crypto_tokens(vp), "participant tokens");
-  must(pv.set_remote_participant_crypto_tokens(lp, t), "set participant tokens");
-  let t = must(pv.create_local_participant_crypto_tokens(lp), "participant tokens");
-  must(pl.set_remote_participant_crypto_tokens(vp, t), "set participant tokens");
+  setup!(pv.register_local_participant(vp, None, participant_attributes()), "register_local_participant");
+  setup!(pl.register_local_participant(lp, None, participant_attributes()), "register_local_participant");
+  setup!(pv.register_matched_remote_participant(lp, pair_secret(1, 2)), "register_matched_remote_participant");
+  setup!(pl.register_matched_remote_participant(vp, pair_secret(1, 2)), "register_matched_remote_participant");
+  let t = setup!(pl.create_local_participant_crypto_tokens(vp), "participant tokens");
+  setup!(pv.set_remote_participant_crypto_tokens(lp, t), "set participant tokens");
+  let t = setup!(pv.create_local_participant_crypto_tokens(lp), "participant tokens");
+  setup!(pl.set_remote_participant_crypto_tokens(vp, t), "set participant tokens");
 
   for (i, e) in eps.iter().enumerate() {
     let lg = GUID::new(vp, e.local);
     let rg = GUID::new(lp, e.remote);
     let a = governed_attrs.as_ref().map(|g| g.endpoints[i].clone()).unwrap_or_else(|| endpoint_attrs(e.sub, e.payload));
     if e.is_reader {
-      must(pv.register_local_reader(lg, None, a.clone()), "register_local_reader");
-      must(pl.register_local_writer(rg, None, a), "register_local_writer");
-      must(pv.register_matched_remote_writer_if_not_already(rg, lg), "register_matched_remote_writer");
-      must(pl.register_matched_remote_reader_if_not_already(lg, rg, false), "register_matched_remote_reader");
+      setup!(pv.register_local_reader(lg, None, a.clone()), "register_local_reader");
+      setup!(pl.register_local_writer(rg, None, a), "register_local_writer");
+      setup!(pv.register_matched_remote_writer_if_not_already(rg, lg), "register_matched_remote_writer");
+      setup!(pl.register_matched_remote_reader_if_not_already(lg, rg, false), "register_matched_remote_reader");
       if !e.volatile {
-        let t = must(pl.create_local_writer_crypto_tokens(rg, lg), "writer tokens");
-        must(pv.set_remote_writer_crypto_tokens(rg, lg, t), "set writer tokens");
-        let t = must(pv.create_local_reader_crypto_tokens(lg, rg), "reader tokens");
-        must(pl.set_remote_reader_crypto_tokens(lg, rg, t), "set reader tokens");
+        let t = setup!(pl.create_local_writer_crypto_tokens(rg, lg), "writer tokens");
+        setup!(pv.set_remote_writer_crypto_tokens(rg, lg, t), "set writer tokens");
+        let t = setup!(pv.create_local_reader_crypto_tokens(lg, rg), "reader tokens");
+        setup!(pl.set_remote_reader_crypto_tokens(lg, rg, t), "set reader tokens");
       }
     } else {
-      must(pv.register_local_writer(lg, None, a.clone()), "register_local_writer");
-      must(pl.register_local_reader(rg, None, a), "register_local_reader");
-      must(pv.register_matched_remote_reader_if_not_already(rg, lg, false), "register_matched_remote_reader");
-      must(pl.register_matched_remote_writer_if_not_already(lg, rg), "register_matched_remote_writer");
-      let t = must(pl.create_local_reader_crypto_tokens(rg, lg), "reader tokens");
-      must(pv.set_remote_reader_crypto_tokens(rg, lg, t), "set reader tokens");
-      let t = must(pv.create_local_writer_crypto_tokens(lg, rg), "writer tokens");
-      must(pl.set_remote_writer_crypto_tokens(lg, rg, t), "set writer tokens");
+      setup!(pv.register_local_writer(lg, None, a.clone()), "register_local_writer");
+      setup!(pl.register_local_reader(rg, None, a), "register_local_reader");
+      setup!(pv.register_matched_remote_reader_if_not_already(rg, lg, false), "register_matched_remote_reader");
+      setup!(pl.register_matched_remote_writer_if_not_already(lg, rg), "register_matched_remote_writer");
+      let t = setup!(pl.create_local_reader_crypto_tokens(rg, lg), "reader tokens");
+      setup!(pv.set_remote_reader_crypto_tokens(rg, lg, t), "set reader tokens");
+      let t = setup!(pv.create_local_writer_crypto_tokens(lg, rg), "writer tokens");
+      setup!(pl.set_remote_writer_crypto_tokens(lg, rg, t), "set writer tokens");
     }
   }
 
@@ -575,25 +589,25 @@ fn run_mode(scenario: u32, choices: &[u8], hostile: bool) -> Outcome {
     pv.verif_set_handles(wp, 3, 3);
     pw.verif_set_handles(wp, 3, 3);
     pw.verif_set_handles(vp, 1, 1);
-    must(pw.register_local_participant(wp, None, participant_attributes()), "register_local_participant (well-behaved peer)");
-    must(pv.register_matched_remote_participant(wp, pair_secret(1, 3)), "register_matched_remote_participant (well-behaved peer)");
-    must(pw.register_matched_remote_participant(vp, pair_secret(1, 3)), "register_matched_remote_participant (well-behaved peer)");
-    let t = must(pw.create_local_participant_crypto_tokens(vp), "participant tokens");
-    must(pv.set_remote_participant_crypto_tokens(wp, t), "set participant tokens");
-    let t = must(pv.create_local_participant_crypto_tokens(wp), "participant tokens");
-    must(pw.set_remote_participant_crypto_tokens(vp, t), "set participant tokens");
+    setup!(pw.register_local_participant(wp, None, participant_attributes()), "register_local_participant (well-behaved peer)");
+    setup!(pv.register_matched_remote_participant(wp, pair_secret(1, 3)), "register_matched_remote_participant (well-behaved peer)");
+    setup!(pw.register_matched_remote_participant(vp, pair_secret(1, 3)), "register_matched_remote_participant (well-behaved peer)");
+    let t = setup!(pw.create_local_participant_crypto_tokens(vp), "participant tokens");
+    setup!(pv.set_remote_participant_crypto_tokens(wp, t), "set participant tokens");
+    let t = setup!(pv.create_local_participant_crypto_tokens(wp), "participant tokens");
+    setup!(pw.set_remote_participant_crypto_tokens(vp, t), "set participant tokens");
     for (i, e) in eps.iter().enumerate().filter(|(_, e)| e.is_reader) {
       let lg = GUID::new(vp, e.local);
       let wg = GUID::new(wp, e.remote);
       let a = governed_attrs.as_ref().map(|g| g.endpoints[i].clone()).unwrap_or_else(|| endpoint_attrs(e.sub, e.payload));
-      must(pw.register_local_writer(wg, None, a), "register_local_writer (well-behaved peer)");
-      must(pv.register_matched_remote_writer_if_not_already(wg, lg), "register_matched_remote_writer (well-behaved peer)");
-      must(pw.register_matched_remote_reader_if_not_already(lg, wg, false), "register_matched_remote_reader (well-behaved peer)");
+      setup!(pw.register_local_writer(wg, None, a), "register_local_writer (well-behaved peer)");
+      setup!(pv.register_matched_remote_writer_if_not_already(wg, lg), "register_matched_remote_writer (well-behaved peer)");
+      setup!(pw.register_matched_remote_reader_if_not_already(lg, wg, false), "register_matched_remote_reader (well-behaved peer)");
       if !e.volatile {
-        let t = must(pw.create_local_writer_crypto_tokens(wg, lg), "writer tokens");
-        must(pv.set_remote_writer_crypto_tokens(wg, lg, t), "set writer tokens");
-        let t = must(pv.create_local_reader_crypto_tokens(lg, wg), "reader tokens");
-        must(pw.set_remote_reader_crypto_tokens(lg, wg, t), "set reader tokens");
+        let t = setup!(pw.create_local_writer_crypto_tokens(wg, lg), "writer tokens");
+        setup!(pv.set_remote_writer_crypto_tokens(wg, lg, t), "set writer tokens");
+        let t = setup!(pv.create_local_reader_crypto_tokens(lg, wg), "reader tokens");
+        setup!(pw.set_remote_reader_crypto_tokens(lg, wg, t), "set reader tokens");
       }
     }
     pw_opt = Some(pw);
